@@ -220,6 +220,37 @@ fn main() {
             print!("{}", render::render(&tree, &lay));
             0
         }
+        Some("libfmt") => {
+            // stdin: JSON lines {id, src, cfg, range?, verify?}; stdout: JSON lines {id, outcome, out}
+            std::panic::set_hook(Box::new(|_| {}));
+            let stdin = std::io::stdin();
+            let stdout = std::io::stdout();
+            let mut o = stdout.lock();
+            for line in stdin.lock().lines() {
+                let line = line.unwrap();
+                if line.trim().is_empty() {
+                    continue;
+                }
+                let v: Value = serde_json::from_str(&line).unwrap();
+                let cfg = match libcase::parse_cfg(v.get("cfg").unwrap_or(&Value::Null)) {
+                    Ok(c) => c,
+                    Err(e) => {
+                        writeln!(o, "{}", json!({"id": v["id"], "outcome": "bad_cfg", "msg": e})).unwrap();
+                        continue;
+                    }
+                };
+                let range = v.get("range").and_then(|r| if r.is_null() { None } else { Some(stylua_lib::Range::from_values(r["start"].as_u64().map(|x| x as usize), r["end"].as_u64().map(|x| x as usize))) });
+                let (oc, _) = libcase::run_format(v["src"].as_str().unwrap_or(""), cfg, range, v["verify"].as_bool().unwrap_or(false));
+                let j = match oc {
+                    libcase::Outcome::Ok(s) => json!({"id": v["id"], "outcome": "ok", "out": s}),
+                    libcase::Outcome::ParseError(m) => json!({"id": v["id"], "outcome": "parse_error", "msg": m}),
+                    libcase::Outcome::OtherError(m) => json!({"id": v["id"], "outcome": "verify_error", "msg": m}),
+                    libcase::Outcome::Panic(m) => json!({"id": v["id"], "outcome": "panic", "msg": m}),
+                };
+                writeln!(o, "{}", j).unwrap();
+            }
+            0
+        }
         Some("project") => {
             // project a file: vh project <file> <syntax>
             let src = std::fs::read_to_string(&args[2]).unwrap();
